@@ -22,7 +22,9 @@ META = {
 def fmt(m):
     c = m["case"]
     steps = " ; ".join("%s(sel=%s n=%s %s)" % (s["op"], ",".join(s["sel"]) or "-", s["n"], s["txt"]) for s in c["steps"])
-    return "shape k=%s n=%s, history [%s]: %s; got %s" % (c.get("k"), c.get("n"), steps, m["what"], (m.get("got") or "")[:600])
+    cf = c.get("conf") or {}
+    on = ",".join(k for k in sorted(cf) if cf[k]) or "none"
+    return "shape k=%s n=%s conf[%s], history [%s]: %s; got %s" % (c.get("k"), c.get("n"), on, steps, m["what"], (m.get("got") or "")[:600])
 
 
 def run(ctx):
@@ -62,8 +64,9 @@ def run(ctx):
         ev.cov(evaluations=tot.get("steps_checked", 0), distinct_nontrivial=len(nontriv),
                traces_validated_against_impl=ncases,
                rule="a case is one history (document tree, operation sequence) of Doc32.tla; exhaustive part: every history of <= 2 steps "
-                    "over the full alphabet (6 selections + 'none', all operations; 59 actions) on 4-page documents of the deep shapes, 1 step "
-                    "on the others, 3 steps over a small alphabet (11 actions) on two shapes; thorough adds -simulate histories of 1-8 steps over 2-30 page documents "
+                    "over the full alphabet (6 selections + 'none', all operations incl. box margins relative to the parent box and box-to-box assignments; 65 actions, default configuration) on 4-page documents of the deep shapes, 1 step "
+                    "on the others, 1 step of every action on every shape with duplicate-content-stream optimisation, 3 steps over a small alphabet (11 actions) on two "
+                    "shapes without optimisation / with another writer layout; thorough adds -simulate histories of 1-8 steps over 2-30 page documents "
                     "with random selections (Sel.tla terms) and parameters. Each distinct (prefix, step) is executed once with the real "
                     "API and compared; evaluations = steps compared; non-trivial = distinct (operation, selection, parameter) steps that "
                     "succeeded with a non-empty expected page list and matched",
@@ -78,7 +81,8 @@ def run(ctx):
                   "excluded (Doc!Ambig): documents with a page that defines its own MediaBox, has no CropBox of its own and sits below a Pages node "
                   "with a CropBox - pdfcpu's PageBoundaries and PageDict disagree whether such a page inherits that CropBox, so steps leading there "
                   "(blank page below such a node, MediaBox on a page with inherited CropBox, CropBox removal on such a page) are not generated",
-                  "boxes are integer rectangles; margin-relative crop boxes use absolute margins only",
+                  "boxes are integer rectangles; relative boxes use absolute margins (1 or 4 values); a request never combines a new MediaBox with relative boxes",
+                  "configuration switches (optimisation passes, object/xref streams) never change the abstract state; simulated histories draw one of Doc!Confs",
                   "generated documents only (the corpus has no per-page markers)",
                   "harness built with go1.26.8")
     finally:
